@@ -34,6 +34,7 @@ ASSUMPTIONS = [
     "what an independent spikeglx.Reader returns (its calibration is C01's subject), of float32 recordings the array "
     "written by the harness",
     "validity is strict on both sides as the property states: offset < sample < ns - (length - offset)",
+    "the selection seed is always an integer (seed=None draws OS entropy: same code path, but a case would not replay)",
     "worker pools are joblib threads; a small loky (process) subset runs in the thorough tier only",
     "in-memory sub-case: windows touching the first sample are generated, windows ending on the last sample are not "
     "(extract_wfs_array asserts strictly)",
@@ -246,7 +247,8 @@ def _case(draw, tier):
                      "backend": "loky" if loky else "threading"}]
     max_wf = draw(st.one_of(st.integers(1, 6), st.integers(1, 24)))
     case["max_wf"] = max_wf
-    case["seed"] = None if draw(st.integers(0, 7)) == 0 else draw(st.one_of(st.integers(0, 3), st.integers(0, 2 ** 32 - 1)))
+    # never None: default_rng(None) takes OS entropy and a replay would not be a function of the case any more
+    case["seed"] = draw(st.one_of(st.integers(0, 3), st.integers(0, 2 ** 32 - 1)))
     lead_invalid = draw(st.booleans())
     nunits = draw(st.integers(1, 6))
     ids = draw(st.lists(st.one_of(st.integers(0, 12), st.integers(0, 100000)), min_size=nunits, max_size=nunits,
@@ -345,10 +347,13 @@ def known_first_spike(case, f):
     if f.kind == "C13.unit_count.first_spike":
         return True
     if f.kind.startswith("C13.extract") and f.kind.endswith(":crash:IndexError@ibldsp/waveform_extraction.py:_make_wfs_table"):
+        # all-zero index table: spike 0 is valid and it is the only spike selected (one valid spike in total, or
+        # max_wf = 1 with a single unit holding valid spikes and the random choice falling on spike 0)
         s, u, c = _build_spikes(case)
         lo, hi = _valid_range(case["ns"], *case["win"])
         ok = (s >= lo) & (s <= hi)
-        return bool(ok[0]) and int(ok.sum()) == 1
+        total = sum(min(case["max_wf"], int(np.sum(ok & (u == uid)))) for uid in np.unique(u))
+        return bool(ok[0]) and total == 1
     return False
 
 
